@@ -197,6 +197,10 @@ type Check struct {
 	QuickBudget, ThoroughBudget time.Duration
 	// Serial checks run as a single worker (they manage their own parallelism).
 	Serial bool
+	// HangIsViolation: a case that exceeds the per-case time limit is a violation of the
+	// property itself (termination / promptness), not a resource skip.
+	HangIsViolation bool
+	HangLimit       time.Duration
 }
 
 var registry = map[string]*Check{}
